@@ -293,6 +293,7 @@ package parquet
 //@   ensures[C10] err == nil ==> (rfault ==> old(rfault))
 
 //@ func (*RequiredField).DoRead
+//@   verify[C04]
 //@   requires external(r)
 //@   safety[C18] nil-deref
 //@   modifies heap("parquet.readCounter"), srcPos, rfault, vPage, vDefs, curNV
@@ -302,6 +303,7 @@ package parquet
 //@   invariant (rfault ==> old(rfault)) && freshOrNil(out) && freshOrNil(sizes)
 
 //@ func (*OptionalField).DoRead
+//@   verify[C04]
 //@   requires f != nil && external(r)
 //@   free-requires 1 <= f.MaxLevels.Def && f.MaxLevels.Def <= 15 && f.MaxLevels.Rep <= 15 && (f.repeated ==> 1 <= f.MaxLevels.Rep)
 //@   safety[C18] nil-deref
